@@ -21,8 +21,6 @@ import (
 	"github.com/open2b/scriggo/native"
 )
 
-var byteSliceType = reflect.TypeFor[[]byte]()
-
 // renderer is used by te Show and Text instructions to render template files.
 type renderer struct {
 
@@ -449,12 +447,9 @@ func showInCSSString(env *env, out io.Writer, value any) error {
 		s = value.String(env)
 	case error:
 		s = value.Error()
+	case []byte:
+		return escapeBytes(newStringWriter(out), value, false)
 	default:
-		v := reflect.ValueOf(value)
-		if v.Type() == byteSliceType {
-			w := newStringWriter(out)
-			return escapeBytes(w, v.Interface().([]byte), false)
-		}
 		var err error
 		s, err = toString(env, value)
 		if err != nil {
